@@ -783,6 +783,14 @@ fn read_at(rec: &RunRecord, i: u64) -> Option<u64> {
 pub fn c08(rec: &RunRecord) -> Vec<Violation> {
     let mut v = Vec::new();
     let t = &rec.sc.tracer;
+    if let Some(e) = &rec.world.harness_error {
+        v.push(Violation::new(
+            "C08",
+            "c08.held-open.never-published",
+            format!("round {} was never published: the run was cut off after its call budget ({e}); max-round-duration {} ns", rec.rounds.len(), t.max_round_ns),
+        ));
+        return v;
+    }
     let tick_max = rec.sc.faults.tick_base_ns + rec.sc.faults.tick_jitter_ns;
     for (k, round) in rec.rounds.iter().enumerate() {
         if round.reads_cb == 0 {
@@ -911,6 +919,33 @@ pub fn c10(rec: &RunRecord) -> Vec<Violation> {
             }
             if found && dist_reply_accepted && round.largest_ttl != d {
                 v.push(Violation::new("C10", "c10.length-not-distance", format!("round {k}: path length {} but the target (distance {d}) answered the probe with that ttl", round.largest_ttl)));
+            }
+        }
+        // quiet lossless network with long enough rounds: outside the round in which the
+        // route changes, the target answers and the length is its true distance
+        if rec.sc.epoch_liveness {
+            let change = rec.sc.net.route_change.as_ref();
+            let in_change_round = change.is_some_and(|(r, _)| *r as usize == k);
+            let len = match change {
+                Some((r, p)) if k >= *r as usize => p[0].routers.len(),
+                _ => rec.sc.net.paths[0].routers.len(),
+            } as u32
+                + 1;
+            let d_epoch = len.max(u32::from(t.first_ttl));
+            if !in_change_round && d_epoch <= u32::from(t.max_ttl) && rec.sc.net.target.behaviour == TargetBehaviour::Normal {
+                if !found {
+                    v.push(Violation::new(
+                        "C10",
+                        "c10.stable-target-not-found",
+                        format!("round {k}: the path is stable (target at distance {d_epoch}), quiet and lossless, but the target was not reached (path length {})", round.largest_ttl),
+                    ));
+                } else if u32::from(round.largest_ttl) != d_epoch {
+                    v.push(Violation::new(
+                        "C10",
+                        "c10.stable-length-not-distance",
+                        format!("round {k}: stable quiet path with the target at distance {d_epoch}, reported length {}", round.largest_ttl),
+                    ));
+                }
             }
         }
         let Some(state) = &round.snapshot else { continue };
